@@ -1,5 +1,5 @@
 (* Glue between generated C16 case files and the model (Model/Json.v). *)
-From Coq Require Import List NArith ZArith Bool String.
+From Coq Require Import List NArith ZArith Bool String Ascii.
 From RareV Require Import Base.Hex Base.Res Model.Json Corr.Run.
 Import ListNotations.
 
@@ -19,6 +19,28 @@ Definition c (tbl : list (string * Z)) (line : string) (ix : list Z)
              (t1 t2 t3 : list string) (g1 g2 g3 : bool) : inp * obs :=
   (IMatch (map (fun p => (unhex (fst p), snd p)) tbl) (unhex line) ix,
    mkobs (map unhex t1) (map unhex t2) (map unhex t3) g1 g2 g3).
+
+(* wide matches: the index vector as text "0,21,-1,-1,..." (a list literal of thousands of numerals
+   overflows the stack of the term parser) *)
+Fixpoint parse_ix_go (s : string) (neg : bool) (acc : option Z) : list Z :=
+  let fin := match acc with Some z => [if neg then (- z)%Z else z] | None => [] end in
+  match s with
+  | EmptyString => fin
+  | String a r =>
+      let n := N_of_ascii a in
+      if (n =? 44)%N then fin ++ parse_ix_go r false None
+      else if (n =? 45)%N then parse_ix_go r true acc
+      else parse_ix_go r neg (Some (match acc with Some z => z * 10 | None => 0 end + Z.of_N (n - 48))%Z)
+  end.
+Definition parse_ix (s : string) : list Z := parse_ix_go s false None.
+
+(* long byte strings come in chunks (a string literal is a term as deep as it is long) *)
+Definition unhexc (chunks : list string) : bytes := List.concat (map unhex chunks).
+
+Definition cw (tbl : list (string * Z)) (line : list string) (ix : list string)
+              (t1 t2 t3 : list (list string)) (g1 g2 g3 : bool) : inp * obs :=
+  (IMatch (map (fun p => (unhex (fst p), snd p)) tbl) (unhexc line) (List.concat (map parse_ix ix)),
+   mkobs (map unhexc t1) (map unhexc t2) (map unhexc t3) g1 g2 g3).
 
 Definition e (data : list string) (keys : list (string * string))
              (t1 t2 t3 : list string) (g1 g2 g3 : bool) : inp * obs :=
